@@ -20,7 +20,7 @@ RULE = (
     "0.1 deg of the initial great-circle bearing; TowerConfig.x,y after parse_config_dict equal the forward transform. "
     "Non-trivial = offset >= 10 m and bearing not a multiple of 90; distinct = canonical JSON."
 )
-ASSUMPTIONS = ["sphere of radius 6 371 000 m as the code documents", "no antimeridian wrap (not claimed by the code)"]
+ASSUMPTIONS = ["sphere of radius 6 371 000 m as the code documents", "targets east of a reference near 180 deg are given with unwrapped longitudes (> 180), as the spherical destination formula returns them; references at and next to +-180 are generated"]
 TOLERANCES = {"round trip": "1e-9 deg / 1e-6 m", "distance": "0.1 %", "bearing": "0.1 deg"}
 BUDGET = {"quick": dict(examples=6000, shards=1), "thorough": dict(examples=100000, shards=16)}
 
@@ -28,7 +28,7 @@ BUDGET = {"quick": dict(examples=6000, shards=1), "thorough": dict(examples=1000
 @st.composite
 def _case(draw):
     ref_lat = draw(st.one_of(gen.spread(-60.0, 60.0, bins=8), gen.spread(-60.0, 60.0, bins=8), st.sampled_from([0.0, 60.0, -60.0, 45.0])))
-    ref_lon = draw(st.one_of(gen.fl(-180.0, 180.0), st.sampled_from([0.0, 179.9, -179.9])))
+    ref_lon = draw(st.one_of(gen.fl(-180.0, 180.0), st.sampled_from([0.0, 179.9, -179.9, 180.0, -180.0, 179.99, -179.99, 179.9995])))
     dist = draw(gen.spread(1.0, 5000.0, bins=7, log=True))
     bearing = draw(st.one_of(gen.spread(0.0, 359.999, bins=8), gen.spread(0.0, 359.999, bins=8), gen.spread(0.0, 359.999, bins=8),
                              st.sampled_from([0.0, 90.0, 180.0, 270.0])))
